@@ -6,6 +6,7 @@ PID = "C09"
 SW = ["-swap", "sync=vsync", "-swap", "time=vtime", "-swap", "net=vnet", "-swap", "context=vctx", "-swap", "net/http=vhttp", "-go", "-chan", "-rangechan", "regChan"]
 REWRITES = [("pkg/station/lib/registration.go", SW), ("pkg/station/lib/registration_ingest.go", SW), ("pkg/station/lib/registration_config.go", SW)]
 INJECTS = [("harness/libacc/lib_verif.go", "pkg/station/lib/zz_verif_acc.go"),
+           ("harness/c09/lib_verif_c09.go", "pkg/station/lib/zz_verif_c09.go"),
            ("harness/c09/main/main.go", "internal/zzverif_c09/main.go"),
            ("harness/c09/main/log.go", "internal/zzverif_c09/log.go")]
 ASSUME = ["scheduling points: every lock acquisition (RWMutex with writer preference), channel operation and select, thread spawn, the liveness probe and the resolver (that is where real workers spend their time); releases are not points; stats counters use atomics and are not points",
